@@ -9,7 +9,17 @@ them arbitrary many other inlined-empty ones — the location the generated `__a
 fallbacks; model of `emit_lookaround_action_code`) is the one property C06 states:
 `@L` = start of the following symbol, else end of the preceding one, else the enclosing empty
 position; `@R` symmetric. "Following/preceding symbol" = the nearest flat argument of the
-generated function after/before the position, i.e. inlined-empty neighbours are skipped.
+generated function after/before the position, i.e. inlined-empty neighbours *of the same function*
+are skipped.
+
+Scope. The inliner processes one nonterminal at a time and `emit_inline_action_code` emits one
+function per step; the theorem speaks about one such function. A symbol that derives nothing but is
+inlined by a *later* step is an ordinary argument of the earlier function, with the span
+`(end of the previous symbol, start of the next symbol)`; `lookaround_composition_counterexample`
+shows that the rule therefore does not hold end to end (`"c" @L @R "d"`: `@L` = end of `c`). That is a
+recorded finding of C06 (`c06:lookaround-next-to-later-inlined-empty`); `checks/lowerpart.py` compares
+the compiled parsers with the *composed* functions (driver `lookmodel`) and evaluates the rule
+(`lookeval`, built from `declL`/`declR`) as the property-level oracle.
 -/
 namespace LalrpopModel.Lower
 open LalrpopModel.Inline (InlinedSymbol LocSrc startSrc endSrc Step planFrom plan numFlatArgs)
